@@ -243,6 +243,11 @@ pub mod verif {
     pub fn get_phc_error_bound(path: &std::path::Path) -> Result<i64, std::io::Error> {
         get_phc_error_bound_from_path(path)
     }
+
+    /// The thread's real entry point (`run`), as `thread_manager` starts it.
+    pub fn run_entry(ctx: Context, phc_info: Option<PhcInfo>) {
+        run(ctx, phc_info)
+    }
 }
 
 #[cfg(test)]
